@@ -125,7 +125,7 @@ Definition chk_C02 (c o : value) : bool :=
           let dom :=
             (0 <=? n) && (0 <=? headlen) &&
             match find_sub CRLFCRLF fed with Some i => Z.of_nat i =? headlen | None => false end &&
-            forallb aop_is_read (on_headers pl dummy_request ++ on_ready pl ++ on_finished pl) &&
+            forallb aop_is_read (on_headers pl dummy_request 0 ++ on_ready pl ++ on_finished pl) &&
             forallb op_is_passive ops && last_is_drain ops &&
             existsb (fun o => match o with Construct => true | _ => false end) ops in
           if negb dom then true
